@@ -10,7 +10,7 @@ package webrtc
 
 // A transceiver's mid is stored only by SetMid, and SetMid refuses to change a mid that is
 // set: by induction over any history a mid, once set, never changes.
-//@ field RTPTransceiver.mid props C09 writers (*RTPTransceiver).SetMid
+//@ field RTPTransceiver.mid props C09 C08 writers (*RTPTransceiver).SetMid
 
 //@ func (*RTPTransceiver).Mid
 //@ inline
